@@ -96,6 +96,13 @@ def r14_1(ctx):
         # the clipped route fills under the identity: a store of identity() to self.transform dominates the fill
         ids = [pt for a, v, pt, kind in can.stores if kind == 'assign' and field_path(a) == (('param', 1), ['transform']) and is_call(v, 'identity')]
         okid = any(can.cfg.dominates(pt[0], bi2) for pt in ids)
+        # ... and it is still the identity when fill() runs: no other store to self.transform can reach the fill after it
+        others = [pt for a, v, pt, kind in can.stores if kind == 'assign' and field_path(a) == (('param', 1), ['transform']) and not is_call(v, 'identity')]
+        for pt in others:
+            if can.cfg.can_reach(pt[0], [bi2]) and any(can.cfg.dominates(i2[0], pt[0]) or i2[0] == pt[0] for i2 in ids) and (pt[0] != bi2):
+                okid = False
+            if pt[0] == bi2:
+                okid = False
         ctx.check(okid, R, ckey + '|slow route identity', call_line(c, bi2), 'transform = identity before the clipped fill', 'clear\'s clipped route fills (0,0,width,height) under the current transform instead of the identity: it differs from the direct clear whenever a transform is set')
         rects = [ct3 for bi3, d, ct3 in calls_in(ctx, c) if d == 'raqote::path_builder::PathBuilder::rect']
         ok = len(rects) == 1 and const_val(rects[0][2][1]) == 0 and const_val(rects[0][2][2]) == 0 and is_self_field(strip_casts(rects[0][2][3], ('IntToFloat',)), 'width') and is_self_field(strip_casts(rects[0][2][4], ('IntToFloat',)), 'height')
@@ -133,7 +140,15 @@ def r14_3(ctx):
     ctx.floor(R, 'composite calls in fill', n, 2)
 
 
+def _r19_3(ctx):
+    import props.c19 as c19
+    c19.r19_3(ctx)
+
+
+_r19_3.__name__ = 'r19_3'
+
+
 def run(ctx):
     import props.c13 as c13
     import engine
-    engine.run_rules(ctx, [r14_1, dt.r02_4, dt.r02_5, r14_3, c13.r13_4, c13.r13_5, dt.r03_8, ras.r01_5, dt.r03_2, dt.r03_3, dt.r03_9])
+    engine.run_rules(ctx, [r14_1, dt.r02_4, dt.r02_5, r14_3, c13.r13_4, c13.r13_5, dt.r03_8, ras.r01_5, dt.r03_2, dt.r03_3, dt.r03_9, _r19_3])
